@@ -80,6 +80,10 @@ class Documenter(object):
         self.lexer: CMakeLexer = CMakeLexer(self.input_stream)
         """The lexer used to generate the token stream."""
 
+        # Lexer errors (unmatchable characters) must be as fatal as parser errors,
+        # otherwise the offending characters are silently skipped
+        self.lexer.addErrorListener(ParserErrorListener())
+
         self.stream: TokenStream = CommonTokenStream(self.lexer)
         """The stream of tokens from the lexer, should be passed to the parser."""
 
